@@ -403,7 +403,7 @@ func runReaders(c *simrun.Ctx) *simrun.Violation {
 	info := infoOf(proto0)
 	var mt protoreflect.MessageType = info
 	md := info.Desc
-	cfg := simval.GenCfg{MaxDepth: 1 + t.Draw("maxdepth", 3), MaxFields: 1 + t.Draw("maxfields", 6), MaxMapEntries: 2 + t.Draw("maxentries", 4), MaxListLen: 1 + t.Draw("maxlist", 4), Unknown: t.Chance("unknowns", 1, 4), AnyTargets: anyTargets(), BigLists: true, InvalidUTF8: t.Chance("allow-invalid-utf8", 1, 6), Huge: t.Chance("allow-huge", 1, 10)}
+	cfg := simval.GenCfg{MaxDepth: 1 + t.Draw("maxdepth", 3), MaxFields: 1 + t.Draw("maxfields", 6), MaxMapEntries: 2 + t.Draw("maxentries", 4), MaxListLen: 1 + t.Draw("maxlist", 4), Unknown: t.Chance("unknowns", 1, 4), AnyTargets: anyTargets(), BigLists: true, InvalidUTF8: t.Chance("allow-invalid-utf8", 1, 4), Huge: t.Chance("allow-huge", 1, 10)}
 	av := simval.Gen(t, md, cfg)
 	// Now and then a DEEP value: a chain of hundreds to thousands of nested
 	// messages along a recursive field path of the type, read by the largest
